@@ -42,6 +42,11 @@ def canon_obj(o, digits=None, _seen=None, _depth=0):
         if digits is None or not np.issubdtype(o.dtype, np.floating):
             return ["ndarray", str(o.dtype), list(o.shape), hashlib.sha256(np.ascontiguousarray(o).tobytes()).hexdigest()[:16]]
         return ["ndarray", str(o.dtype), list(o.shape), [canon_obj(v, digits) for v in o.ravel().tolist()]]
+    if isinstance(o, np.random.Generator):        # a stateful random stream: its state IS part of the object's state
+        return {"__generator__": type(o.bit_generator).__name__, "state": canon_obj(o.bit_generator.state, digits, _seen, _depth + 1)}
+    if isinstance(o, np.random.RandomState):
+        st = o.get_state(legacy=False)
+        return {"__randomstate__": canon_obj(dict(st), digits, _seen, _depth + 1)}
     oid = id(o)
     if oid in _seen:
         return f"<ref {_seen[oid]}>"
